@@ -82,6 +82,8 @@ structure OSt where
   grewFromZero : Bool := false
   /-- ids of the jobs that started in the current step -/
   stepStarts : List Nat := []
+  /-- an acceptance port was seen closed (dropped unanswered) in this step -/
+  stepClosed : Bool := false
   /-- the factory has been held busy at some point (messages queued behind it bypass the factory queue's order) -/
   everBlocked : Bool := false
   bad : List String := []
@@ -195,6 +197,10 @@ def oStep (s : OSt) : Ev → OSt
         let s := if j.discards > 0 then s.flag "c13-discarded-twice" else s
         let s := if j.started.isSome then s.flag "c13-handled-and-discarded" else s
         let s := if j.afterDrain && r != .shutdown && r != .ttlExpired then s.flag "c15-drain-wrong-reason" else s
+        -- C13 reasons over runs: `Shutdown` only after DrainRequests was sent, `RateLimited` only with a limiter
+        -- (`C13.shutdown_discard_only_after_drain`, `C13.rate_limited_discard_needs_limiter`)
+        let s := if r == .shutdown && !s.drainReq then s.flag "c13-shutdown-without-drain" else s
+        let s := if r == .rateLimited && s.info.rl.isNone then s.flag "c13-ratelimited-without-limiter" else s
         s.setJob { j with discards := j.discards + 1 }
   | .reply id back =>
     match s.getJob id with
@@ -209,11 +215,14 @@ def oStep (s : OSt) : Ev → OSt
     let hs := s.hooks ++ [h]
     let s := { s with hooks := hs }
     if isPrefixOf' hs [.started, .draining, .stopped] then s else s.flag "c15-hook-order"
-  | .lost .. | .dropped _ | .panicked | .portClosed _ | .handled .. | .installed _ | .abandoned _ => s
+  | .portClosed _ => { s with stepClosed := true }
+  | .lost .. | .dropped _ | .panicked | .handled .. | .installed _ | .abandoned _ => s
   | .snap up q act _cap live wq =>
     let blocked := up && q.isNone
     let s := if !up && s.up && !s.hooks.contains .stopped then s.flag "c15-stopped-without-hook" else s
     let s := if s.prevIdleDrain && up then s.flag "c15-drain-not-stopped" else s
+    -- C13 acceptance port: a running factory never drops a port unanswered (`C13.acceptance_port_closed_only_at_exit`)
+    let s := if up && s.stepClosed then s.flag "c13-port-closed-while-running" else s
     -- C13 drained exit: the factory stops only when nobody holds a job any more — every job it
     -- took in before DrainRequests was started, discarded or handed back by the time it is gone
     -- (a worker that a shrink flagged draining still counts)
@@ -243,6 +252,9 @@ def oStep (s : OSt) : Ev → OSt
         -- C13: a worker the factory counts as busy has an actor that is running a job (jobs
         -- queued for a worker that died are handed to its replacement)
         let s := if act > s.running.length then s.flag "c13-queued-job-not-handed-over" else s
+        -- C13 acceptance port: the factory answered the queries, so its mailbox has been worked off — every port handed
+        -- in so far has its answer (`C13.acceptance_port_replied_exactly_once`)
+        let s := if s.jobs.any (fun j => j.acc && j.replies == 0) then s.flag "c13-port-unanswered" else s
         -- C15 pool convergence: nobody busy ⇒ live workers are exactly slots 0..n-1
         let s := if act == 0 && s.running.isEmpty then
             let wids := live.filterMap fun a => (s.widOf.find? (fun (x : Nat × Nat) => x.1 == a)).map (fun (x : Nat × Nat) => x.2)
@@ -315,7 +327,7 @@ def oStep (s : OSt) : Ev → OSt
       | _, _ => s
     { s with up := up, blocked := blocked, step := s.step + 1, stepDispatch := none, stepOps := 0,
              discChanged := false, prevRR := s.curStart, curStart := none, handlerFuzzy := false, grewFromZero := false,
-             stepStarts := [], everBlocked := s.everBlocked || blocked }
+             stepStarts := [], stepClosed := false, everBlocked := s.everBlocked || blocked }
 
 def oInit (info : Info) : OSt :=
   { info, requested := info.n, disc := info.disc, handler := if info.hasHandler then some 0 else none,
